@@ -135,8 +135,16 @@ def run_pipe(tier, seed, spec, col):
         shutil.rmtree(root, ignore_errors=True)
         n_samples = int(rng.integers(1, 4))
         ploidy = int(rng.choice([2, 4]))
-        ds = datasets.make_dataset(rng, root, n_samples=n_samples, n_loci=int(rng.integers(3, 6)), ploidy=[ploidy], depth=(0, 14) if rng.random() < 0.3 else (6, 16),
+        mixed = bool(rng.random() < 0.4)
+        ds = datasets.make_dataset(rng, root, n_samples=n_samples, n_loci=int(rng.integers(3, 6)), ploidy=[2, 4, 6] if mixed else [ploidy], depth=(0, 14) if rng.random() < 0.3 else (6, 16),
                                    contig_len=700, snv_range=(0, 4), hostile=0.1)
+        if mixed:
+            # per-sample ploidy file (samples of different ploidy assembled and called together)
+            ploidy = os.path.join(root, "ploidy.txt")
+            with open(ploidy, "w") as fh:
+                for s_ in ds.samples:
+                    fh.write("%s\t%d\n" % (s_, ds.ploidy[s_]))
+            col.count("pipelines_with_ploidy_file")
         thr = float(rng.choice([0.2, 0.2, 0.6, 0.95]))
         args = ["assemble", "--bam"] + ds.bams + ["--targets", ds.bed, "--variants", ds.vcf, "--reference", ds.fasta, "--ploidy", str(ploidy),
                                                   "--mcmc-steps", "150", "--mcmc-burn", "75", "--mcmc-seed", str(int(rng.integers(0, 1000)) if rng.random() < 0.8 else 0),
